@@ -418,8 +418,17 @@ def is_witness(r):
     return r.get("description", "").startswith("WITNESS")
 
 
+# Second documented artefact: SF_CUES is declared with 100 cue points but psf_cues_alloc () allocates only the
+# cue_count entries in use (variable-size struct idiom). CBMC reports every psf->cues->cue_points access as
+# "outside object bounds" of the full struct type although the accessed element lies inside the allocation
+# (index < cue_count is checked by the harness assertions and by ASan in replay). Triage by reading: benign.
+CUES_ARTEFACT = re.compile(r"pointer outside object bounds in \w+->cues->cue_points")
+
+
 def is_artefact(r):
     d = r.get("description", "")
+    if CUES_ARTEFACT.search(d):
+        return True
     if "pointer outside object bounds" in d or "pointer outside dynamic object" in d or "dead object" in d or "pointer NULL" in d or "pointer invalid" in d or "deallocated dynamic object" in d or "invalid integer address" in d or "pointer uninitialized" in d:
         if VA_ARG_ARTEFACT.search(d):
             return True
